@@ -19,7 +19,7 @@ HERE = os.path.dirname(os.path.abspath(__file__))
 import gen as G
 
 PRE2 = ("From Coq Require Import ZArith List Floats.\n"
-        "From Celer Require Import Base.Num Base.NumF Base.Vec3 C12.Surfaces C12.Transforms C09.BZone C09.Dedup C09.Run2.\n"
+        "From Celer Require Import Base.Num Base.NumF Base.Vec3 C12.Surfaces C12.Transforms C09.BZone C09.BZoneRepair C09.Dedup C09.Run2 C09.Run3.\n"
         "Import ListNotations.\nOpen Scope float_scope.\n")
 INF = math.inf
 F5 = "boundingzone-shrink-difference-returns-subtrahend"
@@ -43,6 +43,24 @@ class Limited:
             self._ctx.violation(kind, what, replay, signature=signature, no_input=no_input)
         else:
             self._ctx.count("suppressed:" + self._section + ":" + kind)
+
+
+def bz_source_state():
+    """(calc_difference repaired?, union operand order repaired?) read from the source under test (finding F5).
+    The faithful model of the zone algebra is chosen accordingly: run_bz (both defects), run_bz_dfix (difference
+    repaired), run_bz_fix (both repaired).  With a repaired source the old behaviour is a disagreement with the model,
+    i.e. a hard VIOLATION, not a known finding."""
+    import re
+    try:
+        s = open(os.path.join(vlib.REPO, "src", "orange", "orangeinp", "detail", "BoundingZone.cc")).read()
+    except OSError:
+        return (False, False)
+    m = re.search(r"if \(encloses\(a, b\)\)\s*\{(.*?)\}", s, re.S)          # first one: calc_difference
+    diff_fixed = bool(m) and re.search(r"shrink\s*\?\s*b\s*:", m.group(1)) is None
+    i = s.find("BoundingZone calc_union(BoundingZone const& a")
+    m2 = re.search(r"!a\.negated && b\.negated\)\s*\{(.*?)\}", s[i:], re.S) if i >= 0 else None
+    union_fixed = bool(m2) and re.search(r"calc_difference\(\s*b\.interior,\s*a\.exterior", m2.group(1)) is not None
+    return (diff_fixed, union_fixed)
 
 
 def hx(x):
@@ -136,11 +154,18 @@ def run_zones(ctx, r, exe_run, n):
     lines = ["bz %s %s %d %s %d" % (op, " ".join(hx(v) for v in za[0] + za[1]), za[2],
                                    " ".join(hx(v) for v in zb[0] + zb[1]), zb[2]) for op, za, zb in cases]
     outs = exe_run(lines)
+    diff_fixed, union_fixed = bz_source_state()
+    entry = "run_bz_fix" if (diff_fixed and union_fixed) else "run_bz_dfix" if diff_fixed else "run_bz"
+    ctx.count("bz-source:%s" % entry)
+    if diff_fixed or union_fixed:
+        ctx.notes.append("BoundingZone.cc: calc_difference repaired=%s, union operand order repaired=%s: the zone algebra "
+                         "is compared with model entry %s; finding F5 is no longer excused for the repaired part" % (
+                             diff_fixed, union_fixed, entry))
     exprs = []
     for op, za, zb in cases:
         args = "%s %s %s %s %s" % ("true" if op == "i" else "false", fl(za[0] + za[1]), "true" if za[2] else "false",
                                    fl(zb[0] + zb[1]), "true" if zb[2] else "false")
-        exprs.append("(run_bz %s, run_bz_fix %s)" % (args, args))
+        exprs.append("(%s %s, run_bz_fix %s)" % (entry, args, args))
     def judge(mv):
         nfix = 0
         for (op, za, zb), out, m in zip(cases, outs, mv):
@@ -181,7 +206,8 @@ def run_zones(ctx, r, exe_run, n):
                     truth = (ta and tb) if op == "i" else (ta or tb)
                     if not zone_sound_at((fx[0:6], fx[6:12]), bool(mfix[1]), truth, p):
                         fixed_ok = False
-                mixed = za[2] != zb[2]
+                # known finding F5 only where the source still has the defect
+                mixed = za[2] != zb[2] and ((op == "i" and not diff_fixed) or (op == "u" and not union_fixed))
                 nfix += 1
                 ctx.count("bz-unsound-known" if (mixed and fixed_ok) else "bz-unsound-other")
                 if mixed and fixed_ok and nfix > 2:
@@ -621,7 +647,7 @@ def start(ctx, extra_src=(), incs=()):
     quick = ctx.tier == "quick"
     r = random.Random(ctx.rng.getrandbits(64))
     h = dict(parts=[], mv=None, err=None, thread=None)
-    ok, log = ctx.coq_build(["C09/Run2.vo"])
+    ok, log = ctx.coq_build(["C09/Run2.vo", "C09/Run3.vo"])
     if not ok:
         ctx.violation("model-broken", "the executable model coq/C09 (BZone.v / Dedup.v / Run2.v) no longer compiles",
                       {"log_tail": log[-2000:]}, no_input=True)
